@@ -15,7 +15,7 @@ SPEC = dict(
     id="C12", corr="Corr.C12", driver="h_c12", overlay=True, extra_overlay=_overlay,
     targets=["Properties/C12.vo", "Corr/C12.vo"],
     args=lambda tier, seed: (["-seed", seed, "-n", 700, "-hist", 120, "-overflow", 2, "-timers", 90, "-conc", 32] if tier == "quick"
-                             else ["-seed", seed, "-n", 30000, "-hist", 2500, "-overflow", 12, "-timers", 1500, "-conc", 48, "-scen", 6]),
+                             else ["-seed", seed, "-n", 12000, "-hist", 1500, "-overflow", 8, "-timers", 800, "-conc", 48, "-scen", 4]),
     search_args=lambda seed: ["-seed", seed, "-n", 1500, "-hist", 200, "-overflow", 2, "-timers", 150],
     shard=100,
     timeout=2400,
